@@ -37,6 +37,10 @@ type iterator struct {
 	closer io.Closer
 
 	iteratorOptions IteratorOptions
+
+	// numStartCursors is the number of cursors the iterator started
+	// with, before any leading deletion was skipped.
+	numStartCursors int
 }
 
 // A cursor rerpresents a logical entry position inside a segment in a
@@ -191,6 +195,8 @@ func (ss *segmentStack) startIterator(
 	// Heap-ify the cursors.
 
 	heap.Init(iter)
+
+	iter.numStartCursors = len(iter.cursors)
 
 	if !iteratorOptions.IncludeDeletions {
 		entryEx, _, _, _ := iter.CurrentEx()
@@ -453,7 +459,10 @@ func (iter *iterator) Pop() interface{} {
 // when there's only a single segment, then the heap can be avoided by
 // using a simpler, faster iteratorSingle implementation.
 func (iter *iterator) optimize() (Iterator, error) {
-	if len(iter.cursors) != 1 {
+	if len(iter.cursors) != 1 || iter.numStartCursors != 1 {
+		// Only a single cursor might remain because skipping a leading
+		// deletion exhausted the others, but those other segments (and
+		// their deletions) still matter when SeekTo() moves backwards.
 		return iter, nil
 	}
 
